@@ -1182,6 +1182,16 @@ def run_oracle_case(ctx, case, kind):
   orc = Oracle()
   try:
     out = run_case2(case, hook=orc)
+    if any(step[0] == [1, D.ERR_HANG] for step in out[1]):
+      # the watchdog of the shared driver fired: on a loaded machine (or inside a long garbage collection) that is not a hang -- run the case again with a long limit
+      old = D.WATCHDOG_S
+      D.WATCHDOG_S = 120.0
+      try:
+        orc = Oracle()
+        out = run_case2(case, hook=orc)
+        ctx.hist('watchdog_reruns', 'still-hangs' if any(step[0] == [1, D.ERR_HANG] for step in out[1]) else 'spurious')
+      finally:
+        D.WATCHDOG_S = old
   except Exception as e:        # the driver itself failed: fail closed
     out = None
     ctx.broken.append(dict(kind='driver-crash', name=type(e).__name__, detail=repr(e)[:300] + ' on ' + trlib.to_line(case)[:600]))
